@@ -150,6 +150,7 @@ type zvfVInst struct {
 	fv     []string
 	classes map[string]string
 	rmu    sync.Mutex
+	wedged bool // an operation did not return (watchdog): the instance is not driven any further
 	echo   bool // the proxy echoes extension requests (concurrency harness): Forward/Extension check the echo
 }
 
@@ -608,6 +609,46 @@ func (in *zvfVInst) exec(op, arg string) (res zvfVRes) {
 			}
 		}
 		return zvfVRes{Ok: true, By: by}
+	case "fstorm":
+		// several clients forward raw requests at the same moment; each must get the echo of its own request
+		nG, nR := 3+in.rint(4), 6+in.rint(10)
+		seeds := make([]int64, nG)
+		for g := range seeds {
+			seeds[g] = int64(in.rint(1 << 30))
+		}
+		type out struct{ errs, altered int }
+		outs := make(chan out, nG)
+		for g := 0; g < nG; g++ {
+			go func(g int) {
+				var o out
+				r := mrand.New(mrand.NewSource(seeds[g]))
+				for i := 0; i < nR; i++ {
+					body := make([]byte, 8+r.Intn(300))
+					r.Read(body)
+					req := append([]byte{27, 0, 0, 0, 7, 'v', 'e', 'r', 'i', 'f', '@', 'x', byte(g), byte(i)}, body...)
+					resp, err := s.Forward(req)
+					if err != nil {
+						o.errs++
+					} else if !(len(resp) == 1+len(req) && resp[0] == 29 && bytes.Equal(resp[1:], req)) {
+						o.altered++
+					}
+				}
+				outs <- o
+			}(g)
+		}
+		var tot out
+		for g := 0; g < nG; g++ {
+			o := <-outs
+			tot.errs += o.errs
+			tot.altered += o.altered
+		}
+		if tot.errs > 0 {
+			return zvfVRes{}
+		}
+		if tot.altered > 0 {
+			return zvfVRes{Ok: true, By: "altered"}
+		}
+		return zvfVRes{Ok: true, By: "relayed"}
 	case "extension":
 		body := make([]byte, 8+in.rint(100))
 		rand.Read(body)
@@ -680,7 +721,17 @@ func (in *zvfVInst) step(op, arg string, f zvfVFault) (zvfVLabel, zvfVState) {
 	if f.Kind != "" && f.Kind != "none" {
 		in.px.Arm(f.Kind, f.Hit)
 	}
-	res := in.exec(op, arg)
+	var res zvfVRes
+	resCh := make(chan zvfVRes, 1)
+	go func() { resCh <- in.exec(op, arg) }()
+	select {
+	case res = <-resCh:
+	case <-time.After(zvfHangAfter):
+		// the operation does not return: recorded as by = "hang"; the instance is abandoned
+		res = zvfVRes{By: "hang"}.norm()
+		in.wedged = true
+		fmt.Fprintf(os.Stderr, "verif: %s(%s) did not return within %v\n", op, arg, zvfHangAfter)
+	}
 	lab := zvfVLabel{Op: op, Arg: arg, F: zvfVFault{"none", "none"}, Res: res}
 	if fired, hit := in.px.Fired(); fired {
 		lab.F = zvfVFault{f.Kind, hit}
@@ -688,6 +739,8 @@ func (in *zvfVInst) step(op, arg string, f zvfVFault) (zvfVLabel, zvfVState) {
 	in.px.Begin()
 	return lab, in.project()
 }
+
+const zvfHangAfter = 25 * time.Second
 
 func (in *zvfVInst) close() {
 	in.px.Close()
@@ -875,6 +928,9 @@ func TestVerifShim(t *testing.T) {
 			}
 			recs = append(recs, zvfVRec{Ev: "step", Tid: tid, I: i + 1, Pre: &pre, E: &lab, Post: post})
 			cur = post
+			if in.wedged {
+				break
+			}
 		}
 		tr.EmitAll(recs)
 		in.close()
@@ -1093,7 +1149,7 @@ func zvfVRandomTrace(plan *zvfVPlan, ti int, tr *verifh.Trace, st *zvfVStats) {
 				}
 				break
 			}
-			if len(cfg.Faults) > 0 && rnd.Intn(12) == 0 && !cur.L && !cur.D {
+			if len(cfg.Faults) > 0 && rnd.Intn(12) == 0 && !cur.L && !cur.D && op != "fstorm" {
 				f = zvfVFault{Kind: zvfPick(rnd, cfg.Faults), Hit: zvfPick(rnd, []string{"list", "sign", "add", "remove", "removeall", "lock", "unlock", "raw", "list", "remove"})}
 			}
 		}
@@ -1110,8 +1166,11 @@ func zvfVRandomTrace(plan *zvfVPlan, ti int, tr *verifh.Trace, st *zvfVStats) {
 		recs = append(recs, zvfVRec{Ev: "step", Tid: tid, I: i + 1, Pre: &pre, E: &lab, Post: post})
 		atomic.AddInt64(&st.randomSteps, 1)
 		cur = post
+		if in.wedged {
+			break
+		}
 	}
-	{
+	if !in.wedged {
 		pre := cur
 		lab, post := in.step("signersuse", "", zvfVFault{})
 		recs = append(recs, zvfVRec{Ev: "step", Tid: tid, I: n + 1, Pre: &pre, E: &lab, Post: post})
